@@ -1643,7 +1643,7 @@ def sched_cfg(Sess=("s1", "s2"), LoVals=(1,), MaxMsgs=3, MaxOpsPerReq=2, WithFlu
 def sched_attr(comp):
     return {"schedCur": {"C05", "C04", "C11"}, "schedMaster": {"C05", "C04", "C11"}, "schedLast": {"C04", "C11"}, "schedSessions": {"C09", "C10", "C11"},
             "schedRib": {"C04", "C11", "C01"}, "schedReplies": {"C04", "C05", "C06", "C11", "C01"}, "schedFlushVerdict": {"C08", "C11"},
-            "schedStreamOrder": {"C04", "C11", "C09"}, "schedStall": {"C11", "C10"}, "schedHang": {"C11", "C10"}, "schedNotEnabled": {"C11"}, "schedSetup": {"C11"}}.get(comp, set())
+            "schedStreamOrder": {"C04", "C11", "C09"}, "schedViolationNotEnded": {"C09", "C10", "C11"}, "schedViolationStatus": {"C09"}, "schedFootprintLeft": {"C09", "C10"}, "schedStall": {"C11", "C10"}, "schedHang": {"C11", "C10"}, "schedNotEnabled": {"C11"}, "schedSetup": {"C11"}}.get(comp, set())
 
 
 class SchedFamily:
@@ -1716,6 +1716,11 @@ class SchedFamily:
                        "first_deviation": {"trace_line": ln, "event": ev, "components": mine},
                        "schedule": [{k: e.get(k) for k in ("a", "s", "id", "ops")} for e in evs if e.get("ev") == "sstep"],
                        "failing_event": evs[-1]}, open(rp, "w"), indent=1)
+            if evs[-1].get("ev") == "sblock":
+                e = evs[-1]
+                res.violations.append({"replay": rp, "what": f"a protocol violation ({e.get('violation')}) sent while the write of an earlier answer was held up (the client had stopped reading): "
+                                                             f"RPC ended: {e.get('returned')} with {e.get('code')!r}; a later session asking for another acknowledgement type: {e.get('later')}: {mine} {e.get('err')}"})
+                continue
             if evs[-1].get("ev") == "spipe":
                 e = evs[-1]
                 res.violations.append({"replay": rp, "what": f"one stream, sent without waiting: {e.get('batch')} operations under the announced id, an operation stamped with the next id, then the announcement of that id - "
@@ -2612,3 +2617,6 @@ def c10_many_abandoned(ctx):
 _c08_srv.directed = c08_directed
 _c10_old = REGISTRY["C10"].directed
 REGISTRY["C10"].directed = lambda ctx: _c10_old(ctx) + c10_many_abandoned(ctx)
+
+# C09 under a client that has stopped reading, and the per-stream order of messages: handler-grain scenarios of sched-run
+REGISTRY["C09"] = CompositeFamily("C09", [REGISTRY["C09"], SchedFamily("C09")])
